@@ -1,20 +1,22 @@
 #!/bin/bash
-# trymut.sh <name> <check>... : apply seeded/<name>/patch.diff to /repo, run the given checks (quick), undo.
+# trymut.sh <name> <check>... : apply seeded/<name>/patch.diff to a scratch worktree of /repo's HEAD (never to /repo
+# itself while anything else may be using it), run the given checks (quick) against that tree, remove the change.
 VERIF=$(cd "$(dirname "$0")/.." && pwd)
+wt=${TRYMUT_WT:-/tmp/mx}
 name=$1; shift
 p=$VERIF/seeded/$name/patch.diff
 log=$VERIF/seeded/$name/detect.log
 : > $log
-cd /repo
-if [ -n "$(git status --porcelain -- src)" ]; then echo "REPO DIRTY, abort" | tee -a $log; exit 2; fi
-if ! git apply $p 2>>$log; then echo "$name: patch does not apply" | tee -a $log; exit 2; fi
+if [ ! -d $wt ]; then git -C /repo worktree add --detach $wt HEAD >/dev/null 2>&1; fi
+git -C $wt checkout -q --detach $(git -C /repo rev-parse HEAD); git -C $wt reset -q --hard
+if ! git -C $wt apply $p 2>>$log; then echo "$name: patch does not apply" | tee -a $log; exit 2; fi
 cd $VERIF
 res=""
 for c in "$@"; do
-  out=$(VERIF_NO_EVIDENCE=1 VERIF_REPLAY_DIR=$VERIF/seeded/$name/replays ./check $c --tier quick 2>&1); rc=$?
+  out=$(VERIF_REPO=$wt VERIF_NO_EVIDENCE=1 VERIF_REPLAY_DIR=$VERIF/seeded/$name/replays ./check $c --tier quick 2>&1); rc=$?
   echo "=== $c rc=$rc" >> $log; echo "$out" | cut -c1-600 >> $log
   nsig=$(echo "$out" | grep -c "^VIOLATION")
   res="$res $c:rc$rc/$nsig"
 done
-git -C /repo checkout -- .
+git -C $wt reset -q --hard
 echo "$name ->$res" | tee -a $log
